@@ -767,6 +767,51 @@ def rand_history(rng, uniform):
     return ops, shape
 
 
+def rand_history_wide(rng):
+    """Beyond the sizes of the regular generators (used only after the tie (T) broke: a regenerated definition that
+    is no longer the model may differ from it only on long logbooks / far-away indices): 30..70 records with streams
+    in between, then pops / deletions / slices over the whole index range and more streams."""
+    shape = rand_shape(rng)
+    ops, ref, nrec = [], [], 0
+    for _ in range(rng.randint(30, 70)):
+        ops.append(("record", rand_infos(rng, nrec, shape, True), None))
+        ref.append(nrec)
+        nrec += 1
+        if rng.random() < 0.04:
+            ops.append(("stream",))
+    for _ in range(rng.randint(6, 16)):
+        r = rng.random()
+        if r < 0.3:
+            ops.append(("stream",))
+        elif r < 0.55:
+            i = rand_index(rng, len(ref))
+            ops.append(("pop", i))
+            try:
+                ref.pop(i)
+            except IndexError:
+                pass
+        elif r < 0.75:
+            i = rand_index(rng, len(ref))
+            ops.append(("delitem", i))
+            try:
+                del ref[i]
+            except IndexError:
+                pass
+        elif r < 0.9:
+            a, b = rand_bound(rng, len(ref)), rand_bound(rng, len(ref))
+            c = rng.choice([None, 1, 2, 7, -1, -3])
+            if len(range(*slice(a, b, c).indices(len(ref)))) > 8:
+                continue
+            ops.append(("delslice", a, b, c))
+            del ref[slice(a, b, c)]
+        else:
+            ops.append(("record", rand_infos(rng, nrec, shape, True), None))
+            ref.append(nrec)
+            nrec += 1
+    ops.append(("stream",))
+    return ops, shape
+
+
 def hist_case(run, tools, ops, uniform, kind, terms, cases, sample=False, shape=None):
     ops, steps, fin, viols = run_history(tools, ops, uniform)
     case = {"kind": kind, "uniform_chapters": uniform, "ops": [repr(o) for o in ops]}
@@ -1147,7 +1192,16 @@ def main(run):
         ops, shape = rand_history(rng, uniform)
         hist_case(run, tools, ops, uniform, "random", terms, cases, sample=it < 3, shape=shape)
     run.correspond("random", "C18", terms, cases, check=gen_check, requires=gen_reqs)
-    gen_evaluated += len(terms) if gen_check != "check" else 0
+    gen_evaluated = gen_evaluated + len(terms) if gen_check != "check" else 0
+    if gen_unproved:
+        # the regenerated definitions are no longer provably the model: search beyond the regular sizes for an
+        # input on which the implementation leaves the property / the model
+        terms, cases = [], []
+        for it in range(run.scale(120, 600)):
+            ops, shape = rand_history_wide(rng)
+            hist_case(run, tools, ops, True, "wide search after the tie (T) broke", terms, cases, shape=shape)
+        run.correspond("wide", "C18", terms, cases, shard=20)
+        run.notes.append("tie (T) broke: %d long histories (30..70 records, full index range) searched in addition" % len(terms))
     phases["random"] = round(time.time() - t1, 1)
     t1 = time.time()
 
